@@ -145,12 +145,128 @@ def grammar_total(ctx, g):
                left[0].span if left and getattr(left[0], "span", None) else None)
 
 
+def acceptance_tables(ctx, g):
+    """what from_str accepts, as decision tables over the parsed numbers (nothing of the parser is run): the header is accepted exactly for size >= 1,
+    dim >= 1, dim + 1 operation lists, dim degree lists and at least size / 2 images per operation; an operation image di is written exactly when
+    1 <= di <= size and its own entry is still free; a degree m is stored exactly when it is a multiple of the orbit length r, as v = m / r at
+    (i, d) for the first chamber d of each orbit whose v is still 0; the list cursors start at 0 and advance by 1 per entry used; left-over entries
+    are an error.  A text that Display writes for a valid symbol passes every one of these tests only if they are exactly these"""
+    ctx.clauses.append("from_str acceptance: header (size >= 1, dim >= 1, dim + 1 op lists, dim degree lists, size / 2 <= shortest op list), image 1..=size at a free entry, degree a multiple of r stored as m / r, cursors 0, +1 (T4, path conditions evaluated)")
+    b = ctx.body(ENTRY)
+    spec = None
+    for bi, t in b.calls("PartialDSet::new"):
+        a0 = strip(norm(b.origin(t["args"][0]), g))
+        if a0[0] == "field" and a0[2] == "size":
+            spec = strip(a0[1])
+    bad = None
+    if spec is None:
+        bad = "PartialDSet::new(spec.size, spec.dim) not found"
+    else:
+        F_ = lambda n: ("field", spec, n)
+        new_sites = {bi for bi, t in b.calls("PartialDSet::new")}
+        def val(s_, d_, o_, m_, mn):
+            def f(y):
+                if y == F_("size"):
+                    return s_
+                if y == F_("dim"):
+                    return d_
+                if y[0] == "call" and y[1].endswith("::len") and strip(y[2][0]) == F_("op_spec"):
+                    return o_
+                if y[0] == "call" and y[1].endswith("::len") and strip(y[2][0]) == F_("m_spec"):
+                    return m_
+                if y[0] == "call" and y[1].endswith("unwrap_or") and contains(y, lambda z: is_call(z, "Iterator::min")):
+                    return mn
+                return None
+            return f
+        cases = [((1, 1, 2, 1, 1), True), ((0, 1, 2, 1, 0), False), ((1, 0, 1, 0, 1), False), ((2, 2, 3, 2, 1), True), ((4, 2, 3, 2, 1), False), ((3, 2, 3, 2, 1), True),
+                 ((2, 2, 2, 2, 1), False), ((2, 2, 4, 2, 1), False), ((2, 2, 3, 1, 1), False), ((2, 2, 3, 3, 1), False), ((5, 3, 4, 3, 2), True), ((6, 3, 4, 3, 2), False), ((1, 3, 4, 3, 0), True)]
+        for c, want in cases:
+            r = reachable_sites(b, g, new_sites, val(*c))
+            if bool(r) != want:
+                bad = bad or "a header with size %d, dimension %d, %d operation lists, %d degree lists, shortest operation list %d is %s" % (c + ("accepted" if r else "rejected",))
+    ctx.ob("T4-acceptance", b.name, "header", "ok" if not bad else "violation", "13 headers accepted / rejected as specified" if not bad else bad)
+    # operation images
+    bad = None
+    sets = [(bi, [strip(norm(b.origin(x), g)) for x in t["args"]]) for bi, t in b.calls(exact="dsets::PartialDSet::set")]
+    if len(sets) != 1:
+        bad = "%d set(..) calls" % len(sets)
+    else:
+        sb_, a = sets[0]
+        dset, i_t, d_t, di = a
+        def val2(dv, sz, ent, cur):
+            def f(y):
+                if y == di:
+                    return dv
+                if (y[0] == "field" and strip(y[1]) == dset and y[2] == "size") or (y[0] == "call" and y[1].endswith("::size") and strip(y[2][0]) == dset):
+                    return sz
+                if y[0] == "call" and y[1].endswith("op_unchecked") and strip(y[2][2]) == di:
+                    return ent
+                if y[0] == "call" and y[1].endswith("op_unchecked") and strip(y[2][2]) == d_t:
+                    return cur
+                return None
+            return f
+        for dv, sz, ent, cur, want in ((1, 4, 0, 0, True), (4, 4, 0, 0, True), (0, 4, 0, 0, False), (5, 4, 0, 0, False), (2, 4, 3, 0, False), (2, 4, 0, 1, False)):
+            r = reachable_sites(b, g, {sb_}, val2(dv, sz, ent, cur))
+            if bool(r) != want:
+                bad = bad or "image %d in a set of size %d, its own entry %s, the entry being filled %s: the image is %s" % (dv, sz, "free" if ent == 0 else "taken", "free" if cur == 0 else "already defined", "written" if r else "not written")
+        # cursors
+        ks = []
+        for l, nm in b.debug.items():
+            if b.local_ty(l) == "usize" and not b.is_stable_local(l):
+                ds_ = [strip(norm(d, g)) for dbb, d in b.all_defs_origins(l)]
+                loc = ("local", l, nm)
+                if len(ds_) == 2 and any(unov_deep(d) == ("binop", "Add", loc, ("int", 1)) for d in ds_):
+                    ks.append([eval_int(d) for d in ds_ if eval_int(d) is not None])
+        if not bad and ks != [[0], [0]]:
+            bad = "the two list cursors are not `k = 0; k += 1`: initial values %s" % ks
+    ctx.ob("T4-acceptance", b.name, "operation images / cursors", "ok" if not bad else "violation", "image written iff 1 <= di <= size, its entry free, at a free entry; cursors from 0 by 1" if not bad else bad)
+    # degrees
+    bad = None
+    sv = [(bi, [strip(norm(b.origin(x), g)) for x in t["args"]]) for bi, t in b.calls("PartialDSym::set_v")]
+    if len(sv) != 1:
+        bad = "%d set_v(..) calls" % len(sv)
+    else:
+        vb, a = sv[0]
+        dsym, i_t, d_t, val_ = a
+        q = unov_deep(val_)
+        if not (q[0] == "binop" and q[1] == "Div"):
+            bad = "the branching number stored is not m / r"
+        else:
+            m_t, r_t = strip(q[2]), strip(q[3])
+            okr = is_call(r_t, "Option::<T>::unwrap") and is_call(strip(r_t[2][0]), "DSet::r") and [strip(z) for z in strip(r_t[2][0])[2]][0] == dsym and \
+                strip(strip(r_t[2][0])[2][1]) == i_t and unov_deep(strip(strip(r_t[2][0])[2][2])) == ("binop", "Add", i_t, ("int", 1)) and strip(strip(r_t[2][0])[2][3]) == d_t
+            if not okr:
+                bad = "r is not dsym.r(i, i + 1, d) of the orbit being assigned"
+            else:
+                def val3(mv, rv, vcur):
+                    def f(y):
+                        if y == m_t:
+                            return mv
+                        if y == r_t:
+                            return rv
+                        if y[0] == "call" and y[1].endswith("PartialEq::eq") and any(is_call(strip(z), "DSym::v") for z in y[2]):
+                            return vcur
+                        return None
+                    return f
+                for mv, rv, vcur, want in ((6, 3, 1, True), (6, 4, 1, False), (0, 3, 1, True), (6, 3, 0, False), (3, 3, 1, True)):
+                    r = reachable_sites(b, g, {vb}, val3(mv, rv, vcur))
+                    if bool(r) != want:
+                        bad = bad or "degree %d for an orbit of length %d whose v is %s: the degree is %s" % (mv, rv, "still 0" if vcur else "already set", "stored" if r else "not stored")
+                eqs = [[strip(norm(b.origin(x), g)) for x in t["args"]] for bi, t in b.calls("PartialEq::eq")]
+                okz = any(any(is_call(z, "DSym::v") and unov_deep(strip(z[2][2])) == ("binop", "Add", strip(z[2][1]), ("int", 1)) for z in e_) and
+                          any(z[0] == "agg" and z[1].endswith("Option::Some") and eval_int(z[2][0]) == 0 for z in e_) for e_ in eqs)
+                if not bad and not okz:
+                    bad = "an orbit is taken as unassigned by a test other than dsym.v(i, i + 1, d) == Some(0)"
+    ctx.ob("T4-acceptance", b.name, "degrees", "ok" if not bad else "violation", "stored iff v(i, i + 1, d) == Some(0) and m % r == 0, as m / r with r = r(i, i + 1, d)" if not bad else bad)
+
+
 def run(ctx):
     g = ctx.facts.getters()
     # Display prints m = r * v of every adjacent index pair at the orbit representatives: a range guard in r / v that rejects an in-range
     # query (`i > size()` for `i > dim()`) prints 0 there and the text no longer parses back to an equal symbol (shared rule, see C02)
     from . import c02
     c02.none_outside_ranges(ctx, g)
+    acceptance_tables(ctx, g)
     body = ctx.body(ENTRY)
     reach = ctx.facts.reachable(ENTRY)
     ctx.scan(ctx.facts.bodies[d] for d in reach)
